@@ -9,6 +9,10 @@
    CG: proved are the residual invariant and the exit guarantee (partial correctness). Convergence within `maxit`
    is NOT proved (`cg_correct_partial`). -/
 import PymotoVerif.Lemmas.Solvers
+import PymotoVerif.Lemmas.Orth
+import PymotoVerif.Lemmas.MGInterp
+import Mathlib.Analysis.Real.Sqrt
+import Mathlib.Data.Real.Star
 import Mathlib.Algebra.Star.Rat
 import Mathlib.LinearAlgebra.Matrix.Notation
 import Mathlib.Tactic.Linarith
@@ -392,6 +396,108 @@ theorem cg_exit_residual (c : CGConfig α ρ n k) (b : Mat n k α) (x0 : Option 
   exact hj
 end cg
 
+
+/-! ## `orth` (modified Gram–Schmidt with dropping, as repaired) -/
+section orth
+variable [DecidableEq α]
+
+/-- `orth_orthogonal`: under the contracts `sqrt z · conj(sqrt z) = z` (needed only when `normalize`) and
+    `0 < zero_rtol`, the returned columns are pairwise orthogonal for the inner product of the code
+    (`dot(a,b) = a @ b.conj()`), none of them is null, and they have unit norm when `normalize=True`;
+    for every input block, rank pattern and tolerance. -/
+theorem orth_orthogonal (nz : Bool) (sqrt : α → α) (lt : α → α → Bool) (rtol : α)
+    (hc : OrthContract (n := n) nz sqrt lt rtol) (U : Mat n k α) (out : List (Fin n → α))
+    (h : orth nz sqrt lt rtol U = .ok out) :
+    out.Pairwise (fun a b => dotc a b = 0 ∧ dotc b a = 0) ∧ (∀ v ∈ out, dotc v v ≠ 0) ∧
+      (nz = true → ∀ v ∈ out, dotc v v = 1) := by
+  obtain ⟨hp, hg⟩ := orthCols_orthogonal nz sqrt lt rtol hc (matCols U) [] out List.Pairwise.nil (by simp) h
+  exact ⟨hp, fun v hv => (hg v hv).1, fun hn v hv => (hg v hv).2 hn⟩
+
+/-- `orth_span`: every returned column lies in the span of the input columns, and every input column `u` lies in the
+    span of the returned columns up to a remainder `rem` that is either zero (the column was kept) or was dropped by
+    the code's test (`‖u‖² = 0` or `‖rem‖²/‖u‖² < zero_rtol`). -/
+theorem orth_span (nz : Bool) (sqrt : α → α) (lt : α → α → Bool) (rtol : α)
+    (hc : OrthContract (n := n) nz sqrt lt rtol) (U : Mat n k α) (out : List (Fin n → α))
+    (h : orth nz sqrt lt rtol U = .ok out) :
+    (∀ v ∈ out, v ∈ spanL (matCols U)) ∧
+    (∀ u ∈ matCols U, ∃ rem : Fin n → α, u - rem ∈ spanL out ∧
+      (rem = 0 ∨ dotc u u = 0 ∨ lt (dotc rem rem / dotc u u) rtol = true)) :=
+  ⟨orthCols_mem nz sqrt lt rtol (spanL (matCols U)) (matCols U) [] out (by simp) (fun _ hu => mem_spanL hu) h,
+   orthCols_inputs nz sqrt lt rtol hc (matCols U) [] out h⟩
+
+/-- the repaired `orth` always returns (possibly an empty block) -/
+theorem orth_total (nz : Bool) (sqrt : α → α) (lt : α → α → Bool) (rtol : α) (U : Mat n k α) :
+    ∃ out, orth nz sqrt lt rtol U = .ok out := orthCols_total nz sqrt lt rtol (matCols U) []
+end orth
+
+/-- non-vacuity of the `orth` contracts: over ℝ with `Real.sqrt`, `<` and `zero_rtol = 10⁻¹⁵`, both modes -/
+example (nz : Bool) : OrthContract (n := n) (α := ℝ) nz Real.sqrt (fun a b => decide (a < b)) (1 / 10 ^ 15) where
+  sqrt_ok := by
+    intro _ v
+    have h0 : 0 ≤ dotc v v := by
+      simp only [dotc, dotProduct, star_trivial]
+      exact Finset.sum_nonneg fun i _ => mul_self_nonneg (v i)
+    rw [star_trivial, Real.mul_self_sqrt h0]
+  lt_zero := by simp
+
+
+/-! ## GeometricMultigrid.setup_interpolation -/
+
+/-- `mg_interp_partition`: EVERY row of the interpolation matrix built by `setup_interpolation` sums to one (constant
+    fields are reproduced), for every 2-D (`cz = 0`) and 3-D grid with even element counts `(2cx, 2cy, 2cz)` — the sizes
+    the constructor admits — every number of dofs per node and every fine dof `f`.  The columns range over all
+    `ncoarse = nnodes(cx,cy,cz)·ndof` coarse dofs; duplicates of the COO triplets are summed as scipy does. -/
+theorem mg_interp_partition {β : Type*} [Field β] [CharZero β] (cx cy cz ndof f : ℕ)
+    (hf : f < (Domain.Dom.mk (2 * cx) (2 * cy) (2 * cz)).nnodes * ndof) :
+    (∑ c ∈ Finset.range ((Domain.Dom.mk cx cy cz).nnodes * ndof),
+      mgInterp (α := β) ⟨2 * cx, 2 * cy, 2 * cz⟩ ndof f c) = 1 := by
+  have hnd : 0 < ndof := by
+    rcases Nat.eq_zero_or_pos ndof with h | h
+    · subst h; simp at hf
+    · exact h
+  have hN : f / ndof < (Domain.Dom.mk (2 * cx) (2 * cy) (2 * cz)).nnodes := by
+    rw [Nat.div_lt_iff_lt_mul hnd]; exact hf
+  obtain ⟨hi, hj, hk⟩ := C13.nodeIndices_lt (Domain.Dom.mk (2 * cx) (2 * cy) (2 * cz)) hN
+  have hdec : (Domain.Dom.mk (2 * cx) (2 * cy) (2 * cz)).nodeNumber
+      ((Domain.Dom.mk (2 * cx) (2 * cy) (2 * cz)).nodeI (f / ndof))
+      ((Domain.Dom.mk (2 * cx) (2 * cy) (2 * cz)).nodeJ (f / ndof))
+      ((Domain.Dom.mk (2 * cx) (2 * cy) (2 * cz)).nodeK (f / ndof)) * ndof + f % ndof = f := by
+    rw [C13.nodeNumber_nodeIndices]; exact Nat.div_add_mod' f ndof
+  have := mg_rowsum (α := β) cx cy cz ndof _ _ _ (f % ndof) hi hj hk (Nat.mod_lt f hnd)
+  rw [hdec] at this
+  exact this
+
+
+/-- `mg_interp_linear`: the interpolation reproduces every function that is affine in each coordinate (multilinear
+    functions `(ax + bx·x)(ay + by·y)(az + bz·z)` of the node position, in fine-grid index units): applying row `f` to the
+    coarse nodal values gives the value at the fine node of `f`. -/
+theorem mg_interp_linear {β : Type*} [Field β] [CharZero β] (cx cy cz ndof f : ℕ)
+    (hf : f < (Domain.Dom.mk (2 * cx) (2 * cy) (2 * cz)).nnodes * ndof) (ax bx ay by' az bz : β) :
+    (∑ c ∈ Finset.range ((Domain.Dom.mk cx cy cz).nnodes * ndof),
+      mgInterp (α := β) ⟨2 * cx, 2 * cy, 2 * cz⟩ ndof f c * triAffine cx cy cz ax bx ay by' az bz ndof c) =
+      (ax + bx * (((Domain.Dom.mk (2 * cx) (2 * cy) (2 * cz)).nodeI (f / ndof) : ℕ) : β)) *
+      (ay + by' * (((Domain.Dom.mk (2 * cx) (2 * cy) (2 * cz)).nodeJ (f / ndof) : ℕ) : β)) *
+      (az + bz * (((Domain.Dom.mk (2 * cx) (2 * cy) (2 * cz)).nodeK (f / ndof) : ℕ) : β)) := by
+  have hnd : 0 < ndof := by
+    rcases Nat.eq_zero_or_pos ndof with h | h
+    · subst h; simp at hf
+    · exact h
+  have hN : f / ndof < (Domain.Dom.mk (2 * cx) (2 * cy) (2 * cz)).nnodes := by
+    rw [Nat.div_lt_iff_lt_mul hnd]; exact hf
+  obtain ⟨hi, hj, hk⟩ := C13.nodeIndices_lt (Domain.Dom.mk (2 * cx) (2 * cy) (2 * cz)) hN
+  have hdec : (Domain.Dom.mk (2 * cx) (2 * cy) (2 * cz)).nodeNumber
+      ((Domain.Dom.mk (2 * cx) (2 * cy) (2 * cz)).nodeI (f / ndof))
+      ((Domain.Dom.mk (2 * cx) (2 * cy) (2 * cz)).nodeJ (f / ndof))
+      ((Domain.Dom.mk (2 * cx) (2 * cy) (2 * cz)).nodeK (f / ndof)) * ndof + f % ndof = f := by
+    rw [C13.nodeNumber_nodeIndices]; exact Nat.div_add_mod' f ndof
+  have := mg_rowsum_linear (α := β) cx cy cz ndof _ _ _ (f % ndof) hi hj hk (Nat.mod_lt f hnd) ax bx ay by' az bz
+  rw [hdec] at this
+  exact this
+
+/-- non-vacuity: the centre node of the 2×2 grid (fine dof 4) receives 4 × 1/4 -/
+example : (∑ c ∈ Finset.range ((Domain.Dom.mk 1 1 0).nnodes * 1), mgInterp (α := ℚ) ⟨2 * 1, 2 * 1, 2 * 0⟩ 1 4 c) = 1 :=
+  mg_interp_partition 1 1 0 1 4 (by decide)
+
 /-- partial correctness of CG over an ordered field of norms: an exit through the tolerance test returns `x` with
     `‖b_j − A x_j‖ ≤ tol ‖b_j‖` for every non-zero column `b_j`, and `‖A x_j‖ ≤ tol` (absolute) for a zero column.
     NOT proved (hence `_partial`): that the exit is taken within `maxit` iterations for every Hermitian positive
@@ -411,6 +517,40 @@ theorem cg_correct_partial {ρ : Type*} [Field ρ] [LinearOrder ρ] [IsStrictOrd
   · intro hb
     rw [bnorm, if_pos hb, div_one] at this
     exact this
+
+
+/-! ### non-vacuity of the CG theorems: a concrete 2×2 SPD system over ℚ, two iterations, exit through the tolerance test -/
+section cgExample
+/-- `A = [[2,1],[1,2]]`, identity preconditioner, `np.linalg.inv` of a 1×1 block, squared norms -/
+def cgEx : CGConfig ℚ ℚ 2 1 :=
+  { A := !![2, 1; 1, 2], precond := precIdentity,
+    inv := fun m M => if m = 1 then some (fun i j => 1 / M i j) else none,
+    sqrt := fun _ => 1, lt := fun a b => decide (a < b), zeroRtol := 0,
+    norm := fun v => v 0 * v 0 + v 1 * v 1, tol := 1 / 1000, maxit := 5, restart := 50 }
+def cgExB : Mat 2 1 ℚ := !![1; 2]
+private def cgOkConv (r : Except String (CGResult ℚ 2 1)) : Bool :=
+  match r with
+  | .ok res => res.converged && decide (res.iters = 2) && decide (res.x 0 0 = 0) && decide (res.x 1 0 = 1)
+  | .error _ => false
+private theorem cgEx_runs : cgOkConv (cgSolve cgEx cgExB none) = true := by decide +kernel
+
+/-- the model really runs two iterations on this system, leaves through the tolerance test with `x = (0, 1)`, and the
+    hypotheses of `cg_invariant` / `cg_correct_partial` hold for it -/
+example : ∃ res, cgSolve cgEx cgExB none = .ok res ∧ res.converged = true ∧ res.iters = 2 ∧
+    res.r = cgExB - cgEx.A * res.x ∧
+    cgEx.norm (fun i => (cgExB - cgEx.A * res.x) i 0) ≤ cgEx.tol * cgEx.norm (fun i => cgExB i 0) := by
+  have hk := cgEx_runs
+  cases h : cgSolve cgEx cgExB none with
+  | error e => rw [h] at hk; simp [cgOkConv] at hk
+  | ok res =>
+    rw [h] at hk
+    simp only [cgOkConv, Bool.and_eq_true, decide_eq_true_eq] at hk
+    obtain ⟨⟨⟨hconv, hit⟩, _⟩, _⟩ := hk
+    have hb : 0 < cgEx.norm (fun i => cgExB i 0) := by
+      simp [cgEx, cgExB]; norm_num
+    exact ⟨res, rfl, hconv, hit, (cg_invariant cgEx cgExB none res h).1,
+      (cg_correct_partial cgEx cgExB none res h hconv 0).1 hb⟩
+end cgExample
 
 /-! ## auto_determine_solver -/
 
